@@ -105,7 +105,7 @@ def link_work(job):
 
 def run(ctx, args):
     quick = ctx.tier == "quick"
-    fam = optfamily.programs(3 if quick else 4)
+    fam = optfamily.quick_family(ctx.seed) if quick else optfamily.programs(4)
     n = 250 if quick else 3000
     gen = []
     for i in range(n):
@@ -175,7 +175,7 @@ def run(ctx, args):
                 "listing_head": [f"%{d['ref']} = {d['op']} {d['uses']}" for d in r["fn"]["blocks"][0]["ins"][:6]]} for r in fns[5::max(1, len(fns) // 3)][:3]]
     return common.finish(
         ctx, level="model_checking", evaluations=len(fns), distinct_nontrivial=multi,
-        rule=f"{len(fam)} optimiser-family programs (all sequences of <= {3 if quick else 4} of 12 statement templates) and {n} seeded programs, each compiled at "
+        rule=f"{len(fam)} optimiser-family programs ({'all sequences of <= 2 and a seeded third of the sequences of length 3' if quick else 'all sequences of <= 4'} of the statement templates, the second alphabet) and {n} seeded programs, each compiled at "
              f"both optimisation levels: {len(fns)} functions / {ninstr} instructions projected and checked by IRWellFormed (static invariants + all control-flow paths; "
              "VIEW merges paths that agree on the references still usable). distinct_nontrivial = functions with more than one basic block.",
         samples=samples, traces_validated=len(fns),
